@@ -22,6 +22,49 @@ def placeholders(path):
     return [seg for seg in path.split("/") if seg.startswith(":")]
 
 
+def version_literal_rule(ctx, w):
+    """The `metadata!` macro turns the version literals of an endpoint's history (`1.14 => "/path"`) into MatrixVersion values through
+    MatrixVersion::from_parts; into_parts is its inverse. A wrong table entry records a path under another version, so select_path offers it to
+    servers that do not have it (or withholds it)."""
+    rule = "C16.version-literals"
+    ctx.rule(rule, "MatrixVersion::from_parts(major, minor) = V{major}_{minor} for every arm and every variant has an arm; into_parts is the inverse table")
+    fs = [g for g in w.all_fns() if g["path"].endswith("metadata::MatrixVersion::from_parts") and "body" in g]
+    if len(fs) != 1:
+        ctx.missing(rule, f"{rule}:from_parts", "MatrixVersion::from_parts not found")
+        return
+    f = fs[0]
+    dex = D.Dex(w.lookup, adt_discr=w.adt_discr, inline=lambda n: False, ctors=w.ctors)
+    got = {}
+    for p in dex.paths(f, [D.sym("major"), D.sym("minor")]):
+        if p.kind != "ret" or not D.show(p.ret).startswith("Result::Ok("):
+            continue
+        vals = {}
+        for a, t in p.conds:
+            m = re.fullmatch(r"(major|minor)==(\d+)", D.show_atom(a).replace(" ", ""))
+            if m and t:
+                vals[m.group(1)] = int(m.group(2))
+            if a[0] == "int" and t and D.show(a[1]) in ("major", "minor") and isinstance(a[2], int):
+                vals[D.show(a[1])] = a[2]
+        got[(vals.get("major"), vals.get("minor"))] = D.show(p.ret)
+    bad = {k: v for k, v in got.items() if v != f"Result::Ok(MatrixVersion::V{k[0]}_{k[1]})"}
+    adt = w.adts.get("ruma_common::api::metadata::MatrixVersion")
+    variants = {v["name"] for v in adt["variants"]} if adt else set()
+    missing = sorted(variants - {f"V{a}_{b}" for a, b in got})
+    ctx.floor("arms of MatrixVersion::from_parts", len(got), 10)
+    ctx.check(not bad and not missing, rule, f"{rule}:from_parts", w.where(f),
+              bad_msg=f"version literal table: wrong arms { {f'{a}.{b}': v for (a, b), v in bad.items()} }, variants without an arm {missing}: an endpoint declared for that "
+                      f"version is recorded under another one, and path selection offers its stable path to servers that do not advertise the declared version")
+    gi = [g for g in w.all_fns() if g["path"].endswith("metadata::MatrixVersion::into_parts") and "body" in g]
+    if gi:
+        inv = {}
+        for p in dex.paths(gi[0], [D.sym("self")]):
+            v = [a[2] for a, t in p.conds if a[0] == "variant" and t and D.show(a[1]) == "self"]
+            if v and p.kind == "ret":
+                inv[v[0]] = D.show(p.ret).replace(" ", "")
+        badi = {k: v for k, v in inv.items() if v != "({},{})".format(*k[1:].split("_"))}
+        ctx.check(bool(inv) and not badi, rule, f"{rule}:into_parts", w.where(gi[0]), bad_msg=f"into_parts is not the inverse table: {badi}")
+
+
 def escape_parity_rule(ctx, w):
     """Quoted header values are written with `\\` before every backslash and double quote (quote_ascii_string_if_required). A reader that scans for
     the closing quote has to remember whether the current byte is escaped, and an escaped backslash must not escape what follows: the flag is
@@ -420,6 +463,7 @@ def run(ctx):
         from .. import witness
         witness.check(ctx, "C16.witness", {"C16VersionHistoryFields": "VersionHistory can be built field by field from another crate, bypassing the path/version checks of VersionHistory::new"})
     escape_parity_rule(ctx, w)
+    version_literal_rule(ctx, w)
     ctx.assumptions += ["serde_html_form / serde_json round-trip values of the carrier types; field-level serde symmetry is checked in C18.symmetry",
                         "select_path over arbitrary subsets of versions is not decided (only that it is the function used)"]
     ctx.samples += [{"endpoint": "federation membership::create_join_event::v2", "path_args": 2, "query": "RequestQuery", "body": "RequestBody"}]
